@@ -22,7 +22,7 @@ TokText  == [fr |-> "fr", de |-> "de", it |-> "it", deAT |-> "de-AT", frCA |-> "
 \* ---- C15: the documented precedence -------------------------------------------------------
 Best(header) == LET J == { j \in DOMAIN header : TokMatch[header[j]] # None } IN
                 IF J = {} THEN Default ELSE TokMatch[header[CHOOSE j \in J : \A k \in J : j <= k]]
-\* cookie: [state |-> "absent" | "valid" | "invalid", l |-> locale]
+\* cookie: [state |-> "absent" | "valid" | "invalid", l |-> locale, sp |-> spelling of the header]
 CookieLocale(cookie) == IF cookie.state = "valid" THEN cookie.l ELSE None
 MainLocale(enable, cookie, header) ==
     IF enable /\ CookieLocale(cookie) # None THEN CookieLocale(cookie) ELSE Best(header)
@@ -36,7 +36,14 @@ SubLocale(cookieOn, cookie, initial, parentLocale, header) ==
 VARIABLES ctxs, views, accs, hist
 vars == <<ctxs, views, accs, hist>>
 
-Cookies == { [state |-> "absent", l |-> None], [state |-> "invalid", l |-> None] } \cup { [state |-> "valid", l |-> x] : x \in Locs }
+\* sp: how the Cookie header spells that state (the driver owns the text)
+\*   absent : "none" no Cookie header, "other" an unrelated cookie, "prefix" / "suffix" cookies whose NAME merely contains ours
+\*   valid  : "only", "first", "last" among other cookies, "decoy" between look-alike names holding another locale
+\*   invalid: "unknown" value, "empty" value, "case" a configured name in the wrong case, "noeq" the name without a value
+Spellings == [absent |-> {"none", "other", "prefix", "suffix"}, valid |-> {"only", "first", "last", "decoy"}, invalid |-> {"unknown", "empty", "case", "noeq"}]
+Cookies == { [state |-> st, l |-> None, sp |-> sp] : st \in {"absent", "invalid"}, sp \in Spellings.absent \cup Spellings.invalid }
+           \cup { [state |-> "valid", l |-> x, sp |-> sp] : x \in Locs, sp \in Spellings.valid }
+CookieOK(c) == c.sp \in Spellings[c.state]
 Headers == { <<>> } \cup { <<a>> : a \in HeaderToks } \cup { <<a, b>> : a \in HeaderToks, b \in HeaderToks }
 
 CreateMainOp(enable, custom, cookie, header) ==
@@ -44,12 +51,14 @@ CreateMainOp(enable, custom, cookie, header) ==
 
 InitWith(Enables, Customs, Cks, Hds) ==
     \E enable \in Enables, custom \in Customs, cookie \in Cks, header \in Hds :
+        /\ CookieOK(cookie)
         /\ ctxs = << [locale |-> MainLocale(enable, cookie, header), parent |-> 0] >>
         /\ views = << [ctx |-> 1, depth |-> 0] >> /\ accs = <<>>
         /\ hist = << CreateMainOp(enable, custom, cookie, header) >>
 
 \* parent = 0: created where no context is provided
 CreateSub(parent, cookieOn, cookie, initial, header) ==
+    /\ CookieOK(cookie)
     /\ Len(ctxs) < MaxCtx /\ Len(views) < MaxViews
     /\ ctxs' = Append(ctxs, [locale |-> SubLocale(cookieOn, cookie, initial, IF parent = 0 THEN None ELSE ctxs[parent].locale, header),
                              parent |-> parent])
